@@ -27,7 +27,8 @@ KROME_B = ["@format:idx,R,R,P,Tmin,Tmax,rate", "1,C,H,CH,10,1d4,1.0d-10*(Tgas/3d
 SPECS = {
     "minimal-modifiers": dict(files={"net.kida": KIDA_LINES}, formats=["kida"], elements=["H", "C"], pseudo=[],
                               rate_modifier={"4894": "1.0e-10", "6599": "0.0"},
-                              ode_modifier=[[("C", "-1.5e-17", ["H"])], [("H", "2.0e-17", ["C2"]), ("CH", "0.5e-17", ["C"])], [("C", "0.25e-17", ["CH"])]],
+                              ode_modifier=[[("C", "-1.5e-17", ["H"])], [("H", "2.0e-17", ["C2"]), ("CH", "0.5e-17", ["C"])], [("C", "0.25e-17", ["CH"])],
+                                            [("H2", "1.0e-18", ["H", "H"]), ("H", "-2.0e-18", ["H", "H"])]],
                               extra=["He"] if False else [], solver=("cvode", "cpu", "dense")),
     "uclchem-replacement-binding": dict(files={"net.ucl": UCL_LINES}, formats=["uclchem"], elements=["H", "C", "O", "CL", "E"], pseudo=["CRP", "PHOTON"],
                                         replacement={"CL": "Cl", "E": "e"}, binding={"#HCL": 4321.5}, yields={"#CO": 0.01}, grain_model="rr07x",
@@ -212,12 +213,15 @@ def plain(o):
     return str(o)
 
 
-def oracle_c20(tier, seed):
+def oracle_c20(tier, seed, only=None, prop="C20"):
     import tomlkit
     viol, cases = [], 0
     for label, spec in SPECS.items():
+        if only is not None and label not in only:
+            continue
+
         def V(what):
-            viol.append({"property": "C20", "case": label, "what": what, "signature": f"C20:{label}:{what.split(':')[0]}"})
+            viol.append({"property": prop, "case": label, "what": what, "signature": f"{prop}:{label}:{what.split(':')[0]}"})
         tmp = tempfile.mkdtemp(prefix="vf_c20_")
         try:
             dirs = {}
@@ -267,9 +271,10 @@ def oracle_c20(tier, seed):
                     V(f"sources-differ: {diff[:6]}")
         finally:
             shutil.rmtree(tmp, ignore_errors=True)
-    c2, v2 = oracle_examples(tier, seed)
-    cases += c2
-    viol.extend(v2)
+    if only is None:
+        c2, v2 = oracle_examples(tier, seed)
+        cases += c2
+        viol.extend(v2)
     return {"cases": cases, "distinct": cases, "violations": viol, "samples": [{"cases": list(SPECS) + ["the six bundled examples through `naunet example --dry` + `naunet init`"]}],
             "bound": f"the 6 bundled examples (module data -> option string -> project file, every field compared) and {len(SPECS)} configurations (modifiers given several times, replacement+binding+yield+grain model, custom bulk prefix, allowed/extra species, separator inside a modifier) each rendered by `naunet init --render` and by the API in fresh interpreters",
             "rule": "one case per configuration: TOML compared field by field, source trees compared byte by byte"}
@@ -320,6 +325,11 @@ def oracle_c17(tier, seed):
     return {"cases": cases, "distinct": cases, "violations": viol, "samples": [{"seeds": seeds, "preludes": preludes}],
             "bound": f"3 networks x {len(seeds)} hash seeds, plus 6 preludes (the network itself rendered once and then edited through a setter; other network with custom element lists/prefixes, KROME directives, user binding energies, a KROME file that fails half-way) and repeated rendering",
             "rule": "each (network, seed, prelude) rendering in a fresh interpreter is one case; sha256 of include/ src/ python/"}
+
+
+def oracle_c13_cli(tier, seed):
+    """C13: the modifiers given on the command line reach the rendered sources exactly as through the API"""
+    return oracle_c20(tier, seed, only=("minimal-modifiers",), prop="C13")
 
 
 # ---------------------------------------------------------------- bundled examples: module data -> option string -> project file
